@@ -117,7 +117,8 @@ def recordBody (fs : List (List Nat)) : List Nat :=
   if b.isEmpty then [QUOTE, QUOTE] else b
 
 /-- the reader would take the written record for a comment: the first field starts with `#` and nothing in it
-forces quotes.  These records are **not** read back (finding `C13-hash-start-record`). -/
+forces quotes.  In the BED/GFF line format such a line *is* a comment (`#a` TAB `1` TAB `2`): the record has no
+representation in the format and is outside the property's domain (the round-trip theorems exclude it). -/
 def hashStart : List (List Nat) → Bool
   | f :: _ => f.head? == some HASH && !f.any needsQuote
   | [] => false
